@@ -106,7 +106,14 @@ def run(report, tier, seed, driver, proofs_ok):
                 key = rng.choice(list(props))
                 shape = "document" if (isinstance(props[key], dict) and ("Statement" in props[key] or set(props[key]) >= {"PolicyName", "PolicyDocument"})) else (
                     "list" if isinstance(props[key], list) else ("object-containing-document" if isinstance(props[key], dict) else "scalar"))
-                props[key] = json.dumps(props[key])
+                # JSON text as people write it: compact, pretty-printed, with blanks / a newline around it
+                style = rng.randrange(4)
+                text = json.dumps(props[key], indent=2) if style == 1 else json.dumps(props[key])
+                if style == 2:
+                    text = rng.choice([" ", "\n", "\t", "  \n "]) + text
+                elif style == 3:
+                    text = text + rng.choice([" ", "\n"])
+                props[key] = text
                 encoded = shape
             cases.append(({"Type": rng.choice(["Custom::Thing", "AWS::Logs::ResourcePolicy", "AWS::ECR::Repository"]), "Properties": props}, docs, encoded))
         else:
